@@ -150,8 +150,64 @@ func simGen(r *rand.Rand, tier string, n int) []*wire.Case {
 		mk("d-heal-the-dead", s)
 	}
 
+	{
+		s := base() // a hit that removes no HP does not make its attacker the killer: HP cost after a zero-damage hit
+		s.progs[0] = "Ap.1.1.100+C.100.0"
+		s.progs[4] = "Ao.1.1.0"
+		s.espd = []float64{150, 160}
+		mk("d-killer-zero-hit", s)
+	}
+	{
+		s := base() // ... and after a real hit by one enemy and a zero-damage hit by another
+		s.progs = append(s.progs, "Ao.1.1.0")
+		s.progs[0] = "Ap.1.1.100+C.100.0"
+		s.espd = []float64{150, 140}
+		s.eaction = []int{4, 5}
+		mk("d-killer-real-then-zero", s)
+	}
+	{
+		s := base() // lowest-HP / lowest-ratio rules with the minimum in the middle of the line-up
+		s.ehp = []float64{3000, 3000, 3000, 3000}
+		s.espd = []float64{60, 61, 62, 63}
+		s.eaction = []int{5, 5, 5, 5}
+		s.progs = []string{"Au4.1.1.2500+Au5.1.1.900+Ap.1.1.10", "Ap.2.1.10", "Hp.300", "Ap.3.1.10", "Ap.1.1.150", "_"}
+		s.next = "1:a100,a102,s102,a101|2:a102,s101"
+		mk("d-lowest-middle", s)
+	}
 	prios := []int{45, 48, 75, 115, 215, 500, 1000}
 	for i := 0; i < n; i++ {
+		if i%4 == 3 {
+			// target-rule flavour: a long enemy line with spread-out HP, rules lowest HP / lowest ratio only
+			nc, ne := 1+r.Intn(2), 3+r.Intn(3)
+			s := simSpec{cycles: 2 + r.Intn(3), start: -1, seed: r.Intn(1000)}
+			var next []string
+			for c := 0; c < nc; c++ {
+				s.ckind = append(s.ckind, pick(r, 0, 3))
+				s.cspd = append(s.cspd, pick(r, 0.0, 20, 40))
+				s.cenergy = append(s.cenergy, 0)
+				var hits []string
+				for k := 0; k < 1+r.Intn(3); k++ {
+					hits = append(hits, fmt.Sprintf("Au%d.1.1.%d", nc+1+r.Intn(ne), pick(r, 300, 900, 1500, 2500)))
+				}
+				hits = append(hits, "Ap.1.1.50")
+				s.progs = append(s.progs, strings.Join(hits, "+"))
+				s.cattack, s.cskill, s.cult = append(s.cattack, c), append(s.cskill, c), append(s.cult, c)
+				var ds []string
+				for k := 0; k < 2+r.Intn(3); k++ {
+					ds = append(ds, fmt.Sprintf("%s%d", pick(r, "a", "s"), pick(r, 101, 102, 102)))
+				}
+				next = append(next, fmt.Sprintf("%d:%s", c+1, strings.Join(ds, ",")))
+			}
+			s.progs = append(s.progs, "_")
+			for e := 0; e < ne; e++ {
+				s.ehp = append(s.ehp, pick(r, 3000.0, 5000, 8000))
+				s.espd = append(s.espd, pick(r, 50.0, 60, 70))
+				s.eaction = append(s.eaction, len(s.progs)-1)
+			}
+			s.next = strings.Join(next, "|")
+			mk(fmt.Sprintf("r%d", i), s)
+			continue
+		}
 		nc, ne := 1+r.Intn(3), 1+r.Intn(3)
 		if r.Intn(4) == 0 {
 			nc, ne = 1+r.Intn(4), 1+r.Intn(5)
@@ -161,7 +217,7 @@ func simGen(r *rand.Rand, tier string, n int) []*wire.Case {
 		sel := func() string {
 			return pick(r, "p", "p", "p", "o", "f", "s", fmt.Sprintf("u%d", 1+r.Intn(nc+ne)))
 		}
-		dmg := func() int { return pick(r, 50, 200, 500, 900, 2500) }
+		dmg := func() int { return pick(r, 0, 50, 200, 500, 900, 2500) }
 		cmd := func(canAttack bool) string {
 			k := r.Intn(20)
 			switch {
